@@ -129,6 +129,42 @@ func ruleTracking(w *World, r *Report, rule string, wantScopedStore, wantTransie
 				bad = w.Pos(ex.Pos)
 			}
 		}
+		// the same as a may-analysis of the negation, which survives the join after the test:
+		// "a Disposable is in hand and has not been appended or closed yet"
+		pend := fl.Solve(Spec{Must: false,
+			Node: func(n ast.Node, in Facts) (gen, kill []string) {
+				if as, ok := n.(*ast.AssignStmt); ok {
+					for i, l := range as.Lhs {
+						if fv := fieldOf(finfo, l); fv != nil && i < len(as.Rhs) {
+							if c, ok := unparen(as.Rhs[i]).(*ast.CallExpr); ok && exprStr(c.Fun) == "append" {
+								if sl, ok := fv.Type().Underlying().(*types.Slice); ok && isNamedType(sl.Elem(), modPath, "Disposable") {
+									kill = append(kill, "pending")
+								}
+							}
+						}
+					}
+				}
+				for _, c := range callsIn(n, false) {
+					if _, k, ok := isCloseCall(finfo, c); ok && k == "disposable" {
+						kill = append(kill, "pending")
+					}
+				}
+				return
+			},
+			Edge: func(b *cfg.Block, i int, cond ast.Expr, in Facts) (gen, kill []string) {
+				if cond != nil && okVars[objOf(finfo, cond)] && i == 0 {
+					gen = append(gen, "pending")
+				}
+				return
+			}})
+		for _, ex := range fl.Exits() {
+			if ex.Panic {
+				continue
+			}
+			if pend.AtExit(ex).Has("pending") && bad == "" {
+				bad = w.Pos(ex.Pos) + " (on a path that skips the append)"
+			}
+		}
 		// the test must look at the instance itself and be reached on every path that owns the instance
 		testedSpec := Spec{Must: true, Node: func(n ast.Node, in Facts) (gen, kill []string) {
 			if as, ok := n.(*ast.AssignStmt); ok && len(as.Rhs) == 1 {
